@@ -168,7 +168,7 @@ class Interp:
                 return ("tuple", [])
             if "item" in c:
                 return ("item", c["item"])
-            raise Unsupported("constant")
+            return ("sym", "const")
         return self.place(body, env, op_place(op))
 
     def promoted(self, body, k):
